@@ -431,12 +431,17 @@ def form_case(ctx, form, arows, meta):
 def oracle(ctx, case, obs, exp):
     srows = case["spec_rows"]
     want = {}
+    optional = {}
     for sr, e in zip(srows, exp):
         if e is None:
             ctx.count("oracle:spec-outside-fragment")
             return
         if e:
             want[sr["path"]] = (sr, dict((k, v) for k, v in e))
+        elif sr["logic"]:
+            # every logic cell of the row went elsewhere (a triggered calculate → setvalue): the property
+            # neither demands nor forbids an attribute-less bind for such a row
+            optional[sr["path"]] = (sr, {})
     seen = {}
     for ns, attrs, n_nodeset, first in obs:
         if n_nodeset != 1 or first != "nodeset":
@@ -447,6 +452,9 @@ def oracle(ctx, case, obs, exp):
             continue
         seen[ns] = attrs
     for ns, attrs in seen.items():
+        if ns in optional and ns not in want:
+            want[ns] = optional[ns]
+            ctx.count("oracle:attribute-less bind of a row whose only logic went to a setvalue")
         if ns not in want:
             ctx.fail(Failure("unexpected-bind", f"bind for {ns} {attrs}: no row with logic or typed node there", case,
                              extra={"nodeset": ns}))
